@@ -66,6 +66,10 @@ def tree_from(gen, name, args, kwargs):
     return root
 
 
+import os as _os
+REPO_PATH = _os.environ.get("OFX_REPO", "/repo")
+
+
 def run(ctx):
     from ofxtools.models.base import Aggregate
     schema = ctx.schema
@@ -86,6 +90,33 @@ def run(ctx):
         for prop_name in ("spec", "spec_no_listaggregates", "elements", "subaggregates", "listaggregates",
                           "listelements", "unsupported"):
             getattr(kcls, prop_name)
+
+    # ... and it must not: the same introspection done subclasses-first in a fresh interpreter has to describe every
+    # class the same way (a class description that depends on which class was looked at first means some declared
+    # constraint is not enforced in one of the two histories)
+    import json as _json, subprocess as _sp, sys as _sys
+    probe = ("import sys, json, inspect; sys.path.insert(0, %r); import ofxtools.models as M; "
+             "from ofxtools.models.base import Aggregate; "
+             "cl=[c for n,c in vars(M).items() if inspect.isclass(c) and issubclass(c, Aggregate)]; "
+             "cl.sort(key=lambda k:(-len(k.__mro__), k.__name__)); "
+             "print(json.dumps({k.__name__: [[n, type(v).__name__, bool(getattr(v,'required',False))] for n,v in k.spec.items()] for k in cl}))") % REPO_PATH
+    try:
+        out = _sp.run([_sys.executable, "-c", probe], capture_output=True, text=True, timeout=300).stdout
+        other = _json.loads(out.strip().splitlines()[-1])
+    except Exception:   # noqa
+        other = {}
+        ctx.notes.append("order-independence probe of the class descriptions could not run")
+    for kcls in allcls:
+        mine = [[n, type(v).__name__, bool(getattr(v, "required", False))] for n, v in kcls.spec.items()]
+        theirs = other.get(kcls.__name__)
+        ctx.evaluations += 1
+        if theirs is not None and theirs != mine:
+            lost = [x for x in theirs if x not in mine]
+            ctx.violate("class_description_depends_on_history",
+                        {"cls": kcls.__name__, "bases_first": mine[:40], "subclasses_first": theirs[:40]},
+                        f"{kcls.__name__}: the children/constraints the class declares differ between two orders of first "
+                        f"use (bases first: {len(mine)} children, subclasses first: {len(theirs)}; e.g. {lost[:2]}) — in one "
+                        f"of the two histories the class does not enforce what it declares", {"cls": kcls.__name__})
 
     cases = []   # (clsname, kind, what, args, kwargs, expect)  expect in {"ok","err"}
 
